@@ -1,6 +1,8 @@
 (* Lmmt/Lenient.v — the lenient configuration of the checker accepts every program the checker (strict configuration)
    accepts, with the same types: it is an upper bound, so "strict accepts => real accepts => lenient accepts" is a
-   meaningful sandwich for the comparison with the real type checker (checks/lmmt_part.py). *)
+   meaningful sandwich for the comparison with the real type checker (checks/lmmt_part.py).  On `match` the two
+   configurations differ only in the exhaustiveness check of tuple / sum scrutinees and in the equality the arm types are
+   compared with (the lenient configuration follows the repaired typing.rs: findings T6, T7 on numbers, T8). *)
 From Coq Require Import List ZArith NArith Bool Lia.
 From Mimium Require Import Lmmm.Syntax Lmmx.Syntax Lmmx.World Lmmx.MatchSelf Lmmt.Types Lmmt.Check.
 Import ListNotations.
@@ -156,36 +158,49 @@ Section Extends.
     apply andb_true_iff in H. destruct H as [H _]. apply ty_eqb_eq in H. subst. inversion Hd; subst. rewrite H1. reflexivity.
   Qed.
 
-  Lemma tc_mpat_len : forall m t G G', tc_mpat false m t G = Some G' -> tc_mpat true m t G = Some G'.
-  Proof.
-    induction m as [z| |tag p|ms IH] using mpat_ind'; intros t G G' H; cbn [tc_mpat andb] in *; auto.
-    - destruct t; try discriminate; auto.
-    - destruct t as [| | | | |nm cs]; try discriminate.
-      destruct (nth_error cs tag) as [[t'|]|]; destruct p as [q|]; try discriminate; auto.
-    - destruct t as [| |ts| | |]; try discriminate.
-      revert ts G H. induction IH as [|m ms Hm _ IHms]; intros ts G H; destruct ts as [|t ts]; try discriminate; auto.
-      destruct (tc_mpat false m t G) as [G1|] eqn:E1; try discriminate. rewrite (Hm _ _ _ E1). auto.
-  Qed.
-
+  (* the patterns are checked in the same way in both configurations (Check.tc_mpat) *)
   Lemma tc_arms_ext : forall arms G ts tys,
     Forall (fun a => forall G t, tc S G (snd a) = Some t -> tc L G (snd a) = Some t) arms ->
-    tc_arms S false G ts arms = Some tys -> tc_arms L true G ts arms = Some tys.
+    tc_arms S G ts arms = Some tys -> tc_arms L G ts arms = Some tys.
   Proof.
     induction arms as [|a arms IH]; intros G ts tys HF H; cbn [tc_arms] in *; auto.
     inversion HF as [|? ? Ha Harms]; subst.
-    destruct (tc_mpat false (fst a) ts G) as [G'|] eqn:E1; try discriminate. rewrite (tc_mpat_len _ _ _ _ E1).
+    destruct (tc_mpat (fst a) ts G) as [G'|] eqn:E1; try discriminate.
     destruct (tc S G' (snd a)) as [t|] eqn:E2; try discriminate. rewrite (Ha _ _ E2).
-    change (match tc_arms S false G ts arms with Some tl => Some (t :: tl) | None => None end = Some tys) in H.
-    change (match tc_arms L true G ts arms with Some tl => Some (t :: tl) | None => None end = Some tys).
-    destruct (tc_arms S false G ts arms) as [tl|] eqn:E3; try discriminate. rewrite (IH _ _ _ Harms E3). exact H.
+    change (match tc_arms S G ts arms with Some tl => Some (t :: tl) | None => None end = Some tys) in H.
+    change (match tc_arms L G ts arms with Some tl => Some (t :: tl) | None => None end = Some tys).
+    destruct (tc_arms S G ts arms) as [tl|] eqn:E3; try discriminate. rewrite (IH _ _ _ Harms E3). exact H.
   Qed.
 
-  Lemma exhaustive_ext : forall t ms, exhaustive t ms = true -> exhaustive_len t ms = true.
+  Lemma tc_arms_pats : forall an arms G ts tys,
+    tc_arms an G ts arms = Some tys -> Forall (fun m => exists G', tc_mpat m ts G = Some G') (map fst arms).
   Proof.
-    intros t ms H. unfold exhaustive in H. unfold exhaustive_len. destruct t; auto.
-    apply orb_true_iff in H. apply orb_true_iff. destruct H as [H|H]; [left|right; exact H].
-    apply existsb_exists in H. destruct H as (m & Hin & Hi). apply existsb_exists. exists m. split; auto.
-    destruct m; cbn in Hi; try discriminate; reflexivity.
+    intro an. induction arms as [|a arms IH]; intros G ts tys H; cbn [tc_arms map] in *; constructor.
+    - destruct (tc_mpat (fst a) ts G) as [G'|]; try discriminate. eauto.
+    - destruct (tc_mpat (fst a) ts G) as [G'|]; try discriminate.
+      destruct (tc an G' (snd a)) as [t|]; try discriminate.
+      change (match tc_arms an G ts arms with Some tl => Some (t :: tl) | None => None end = Some tys) in H.
+      destruct (tc_arms an G ts arms) as [tl|] eqn:E3; try discriminate. eapply IH; eauto.
+  Qed.
+
+  (* strict exhaustiveness implies the lenient one on patterns that are typed against the scrutinee type (on a number the
+     lenient check asks for `_` itself, and `_` is the only irrefutable pattern a number can meet) *)
+  Lemma exhaustive_ext : forall t ms G,
+    Forall (fun m => exists G', tc_mpat m t G = Some G') ms -> exhaustive t ms = true -> exhaustive_len t ms = true.
+  Proof.
+    intros t ms G HF H. unfold exhaustive in H. unfold exhaustive_len. destruct t; auto.
+    - rewrite orb_false_r in H. apply existsb_exists in H. destruct H as (m & Hin & Hi). apply existsb_exists. exists m. split; auto.
+      rewrite Forall_forall in HF. destruct (HF m Hin) as (G' & Hm).
+      destruct m; cbn in Hi, Hm; try discriminate; reflexivity.
+    - apply orb_true_iff in H. apply orb_true_iff. destruct H as [H|H]; [left|right; exact H].
+      apply existsb_exists in H. destruct H as (m & Hin & Hi). apply existsb_exists. exists m. split; auto.
+      destruct m; cbn in Hi; try discriminate; reflexivity.
+  Qed.
+
+  Lemma forallb_sim : forall t0 tl, forallb (ty_eqb t0) tl = true -> forallb (ty_sim t0) tl = true.
+  Proof.
+    intros t0 tl H. induction tl as [|t tl IH]; cbn in *; auto.
+    apply andb_true_iff in H. destruct H as [H1 H2]. apply ty_eqb_eq in H1. subst. rewrite ty_sim_refl, (IH H2). reflexivity.
   Qed.
 
   Ltac unfold_cfg :=
@@ -266,18 +281,19 @@ Section Extends.
       destruct (ty_eqb t' ta) eqn:Eq; try discriminate. apply ty_eqb_eq in Eq. subst. rewrite ty_sim_refl. exact Htc.
     - (* XMatch *)
       destruct (tc S G e) as [ts|] eqn:E1; try discriminate. rewrite (IHe _ _ E1).
-      change (match tc_arms S false G ts arms with
+      change (match tc_arms S G ts arms with
               | Some (t0 :: tl) => if forallb (ty_eqb t0) tl && exhaustive ts (map fst arms) then Some t0 else None
               | _ => None
               end = Some t) in Htc.
-      change (match tc_arms L true G ts arms with
-              | Some (t0 :: tl) => if exhaustive_len ts (map fst arms) then Some t0 else None
+      change (match tc_arms L G ts arms with
+              | Some (t0 :: tl) => if forallb (ty_sim t0) tl && exhaustive_len ts (map fst arms) then Some t0 else None
               | _ => None
               end = Some t).
-      destruct (tc_arms S false G ts arms) as [[|t0 tl]|] eqn:Ea; try discriminate.
+      destruct (tc_arms S G ts arms) as [[|t0 tl]|] eqn:Ea; try discriminate.
       rewrite (tc_arms_ext _ _ _ _ H Ea).
       destruct (forallb (ty_eqb t0) tl && exhaustive ts (map fst arms)) eqn:Ec; try discriminate.
-      apply andb_true_iff in Ec. destruct Ec as [_ Eex]. rewrite (exhaustive_ext _ _ Eex). exact Htc.
+      apply andb_true_iff in Ec. destruct Ec as [Eall Eex].
+      rewrite (forallb_sim _ _ Eall), (exhaustive_ext _ _ _ (tc_arms_pats _ _ _ _ _ Ea) Eex). exact Htc.
   Qed.
 
   Lemma tc_globals_extends : forall gs G G', tc_globals S gs G = Some G' -> tc_globals L gs G = Some G'.
